@@ -55,6 +55,8 @@ def eval_mdd(mdd, ref, values):
     u = abs(ref)
     guard = 0
     while u != 1:
+        require(u in mdd._succ, 'mdd.reference_to_missing_node',
+                dict(ref=ref, node=u))
         t = mdd._succ[u]
         j = t[0]
         var = [v for v, d in mdd.vars.items() if d['level'] == j][0]
@@ -102,6 +104,8 @@ def mdd_reachable(mdd, roots):
         if u in seen:
             continue
         seen.add(u)
+        require(u in mdd._succ, 'mdd.reference_to_missing_node',
+                dict(node=u))
         stack.extend(abs(v) for v in mdd._succ[u][1:])
     return seen
 
